@@ -143,6 +143,11 @@ fn case_grammar(k: usize, field: &str, acc: &mut Acc) {
 /// one must denote the reference sets (Debug rendering where it has the known shape) and yield the
 /// same first minutes as the brute-force evaluator
 fn case_expr(expr: &str, iterate: bool, acc: &mut Acc) {
+    case_expr_inner(expr, iterate, acc);
+    crate::props::anchor::cron(acc, "CronSchedule (purity probe)", &|| json!({"kind": "expr", "expr": expr, "iterate": iterate}));
+}
+
+fn case_expr_inner(expr: &str, iterate: bool, acc: &mut Acc) {
     let want = rc::parse(expr);
     acc.transitions += 1;
     acc.states += 1;
